@@ -21,6 +21,11 @@ def PEv.noFinal : PEv → Prop
   | .read items => ∀ i ∈ items, i.isFinal = false
   | _ => True
 
+end Srv
+
+namespace Srv.PumpTls
+open Srv
+
 /-- handler + upload-handler invocations so far -/
 def handlerCalls (p : PSt) : Nat :=
   match p.inner with
@@ -149,4 +154,4 @@ theorem step_reject (cfg : Cfg) (p : PSt) (hp : Pre p) (pre : List Item) (x : It
     rw [if_neg h2]
     have := go_reject cfg pre x rest hx p hp hpre
     exact ⟨this.1, Or.inl this.2⟩
-end Srv
+end Srv.PumpTls
